@@ -39,7 +39,7 @@ Domain == [
 Invalid == [
     kernel     |-> {"unknown"},
     resampler  |-> {"unknown"},
-    metric     |-> {"ess0", "essneg", "vv0", "vvneg"},
+    metric     |-> {"ess0", "essneg", "vv0", "vvneg", "ess0vv", "essnegvv"},   \* last two: invalid ess_ratio together with a valid volume target
     evaluation |-> {"vectorblobs"},
     bounds     |-> {"overlap", "outofrange", "negative", "nonint"},
     nParticles |-> {"zero", "neg", "float"},
